@@ -3,6 +3,7 @@ package checks
 import (
 	"bytes"
 	"fmt"
+	"os"
 	"strings"
 
 	"github.com/wkhere/bcl"
@@ -376,20 +377,109 @@ func c11Scripts(n int, cuts []int) [][]impl.Answer {
 	return out
 }
 
+// c11.osfile: the three file entry points on real *os.File inputs (regular files incl. an empty one, /dev/null, a
+// pipe whose writer is closed, a pipe that delivers data and then an error-free EOF). Free-running (no scheduler):
+// the call must return (the 60 s watchdog of the worker catches a spin or a hang), give the in-memory outcome,
+// and have closed the file.
+type c11OSFile struct {
+	Kind string `json:"kind"`
+	Src  string `json:"src"`
+	API  string `json:"api"`
+}
+
+func (c *c11OSFile) Key() string { return c.Kind + "|" + c.API + "|" + c.Src }
+
+var subC11OSFile = &fw.Sub{Name: "c11.osfile", New: func() fw.Case { return &c11OSFile{} }, Exec: func(cs fw.Case) *fw.Fail {
+	c := cs.(*c11OSFile)
+	return fw.Guard(func() *fw.Fail {
+		var f *os.File
+		switch c.Kind {
+		case "regular":
+			tmp, err := os.CreateTemp(fw.WorkDir(), "c11-*.bcl")
+			if err != nil {
+				return fw.Failf("temp file", "%v", err)
+			}
+			defer os.Remove(tmp.Name())
+			tmp.WriteString(c.Src)
+			tmp.Close()
+			f, err = os.Open(tmp.Name())
+			if err != nil {
+				return fw.Failf("open", "%v", err)
+			}
+		case "devnull":
+			var err error
+			if f, err = os.Open("/dev/null"); err != nil {
+				return fw.Failf("open /dev/null", "%v", err)
+			}
+		case "pipe":
+			r, w, err := os.Pipe()
+			if err != nil {
+				return fw.Failf("pipe", "%v", err)
+			}
+			go func() { w.WriteString(c.Src); w.Close() }()
+			f = r
+		}
+		src := c.Src
+		if c.Kind == "devnull" {
+			src = ""
+		}
+		var got, want string
+		var out, log bytes.Buffer
+		switch c.API {
+		case "parse":
+			p, err := bcl.ParseFile(f, bcl.OptOutput(&out), bcl.OptLogger(&log))
+			po := parseObs{errs: err != nil, log: strings.ReplaceAll(log.String(), f.Name(), "input")}
+			if err == nil {
+				po.dump, _ = impl.Dump(p)
+			}
+			got = fmt.Sprintf("errs=%v log=%q", po.errs, po.log)
+			o := obsWhole(src)
+			want = fmt.Sprintf("errs=%v log=%q", o.errs, o.log)
+		case "interpret":
+			bl, bi, err := bcl.InterpretFile(f, bcl.OptOutput(&out), bcl.OptLogger(&log))
+			got = impl.Ran{Blocks: bl, Binding: bi, Err: err, Out: out.String(), Log: log.String()}.Summary()
+			want = impl.Interpret(src).Summary()
+		case "unmarshal":
+			var t, t2 c11Target
+			err := bcl.UnmarshalFile(f, &t, bcl.OptOutput(&out), bcl.OptLogger(&log))
+			got = fmt.Sprintf("err=%v target=%+v out=%q log=%q", err, t, out.String(), log.String())
+			var out2, log2 bytes.Buffer
+			err2 := bcl.Unmarshal([]byte(src), &t2, bcl.OptOutput(&out2), bcl.OptLogger(&log2))
+			want = fmt.Sprintf("err=%v target=%+v out=%q log=%q", err2, t2, out2.String(), log2.String())
+		}
+		if cerr := f.Close(); cerr == nil {
+			return fw.Failf("the input file is closed by the call", "closing it afterwards succeeds: it was still open")
+		}
+		if got != want {
+			return fw.Failf("outcome on an *os.File ("+c.Kind+") equals the in-memory outcome: "+fw.Trunc(want, 300), "%s", fw.Trunc(got, 300))
+		}
+		fw.TallyOutcome("osfile-" + c.Kind)
+		fw.TallyNontrivial()
+		return nil
+	})
+}}
+
 func init() {
 	fw.Register(&fw.Check{
 		ID:    "C11",
 		Level: "model_checking",
 		Rule: "stateless model checking of the real ParseFile/InterpretFile/UnmarshalFile pipeline (package bcl rewritten at check time so that its channel operations, go statements and select go through the controlled scheduler mc/vsched): " +
-			"inputs of 5 classes x 2 (valid; syntax error in the first / last chunk; lexical failure in the first chunk with 6 more chunks pending / in the last chunk), each under every reader script of a bounded family (1-3 chunks cut at token and mid-token offsets; <=2 non-default answers among zero-byte read, data+EOF, error, data+error; errors of three kinds: plain, wrapping io.EOF, io.ErrUnexpectedEOF; UnmarshalFile also with targets that cannot be bound: a struct value, nil, a slice value) and tokens-buffer sizes {source value, 1, 2}; " +
+			"inputs of 5 classes x 2 plus a byte order mark (alone in a read, split, with data) and 40 syntax errors followed by more input (valid; syntax error in the first / last chunk; lexical failure in the first chunk with 6 more chunks pending / in the last chunk), each under every reader script of a bounded family (1-3 chunks cut at token and mid-token offsets; <=2 non-default answers among zero-byte read, data+EOF, error, data+error; errors of three kinds: plain, wrapping io.EOF, io.ErrUnexpectedEOF; UnmarshalFile also with targets that cannot be bound: a struct value, nil, a slice value) and tokens-buffer sizes {source value, 1, 2}; " +
 			"for each (input, script) ALL schedules of caller, reader, parser and lexer goroutines with <=B preemptions (quick 1, thorough 2; 3 for single-chunk scripts) are executed, and in addition ALL interleavings without any bound, pruned by a causal-history state key (quick: for scripts of <=2 answers through ParseFile; thorough: for every case, capped at 3x10^6 executions each). Oracle on every execution: quiescence without deadlock, the call returned, no goroutine left and none writing to the writers of the caller after the return, Close count = 1, the delivered read error is the returned error, <=3 reads after the read delivering a lexical failure, outcome identical to the in-memory API on the delivered bytes. " +
-			"states/transitions = executions (each a distinct schedule).",
-		Subs:           []*fw.Sub{subC11},
+			"states/transitions = executions (each a distinct schedule). Sub-check c11.osfile (free-running): the three entry points on real *os.File inputs (regular files incl. an empty one, a pipe, /dev/null): the call returns, gives the in-memory outcome and has closed the file.",
+		Subs:           []*fw.Sub{subC11, subC11OSFile},
 		BudgetQuick:    100,
 		BudgetThorough: 1700,
 		Assumptions: []string{"scheduling points are channel operations, select, close, go, locks and atomics; code between them runs atomically (sound if race-free: C12)",
 			"readers that block forever or return (0,nil) forever are outside the bound"},
 		Run: func(c *fw.Ctx) {
+			for _, src := range []string{"", "x", "print 1\n", "def c11target { x = 1 }\nbind c11target -> struct", "print @", "print )\nprint 2", strings.Repeat("print 1\n", 1000)} {
+				for _, kind := range []string{"regular", "pipe", "devnull"} {
+					for _, api := range []string{"parse", "interpret", "unmarshal"} {
+						c.Do(subC11OSFile, &c11OSFile{Kind: kind, Src: src, API: api})
+					}
+				}
+			}
 			type input struct {
 				src  string
 				cuts []int
@@ -406,6 +496,11 @@ func init() {
 				{"print 1 +\nvar\n", []int{6, 10}},
 				{"def é", []int{4, 5}},
 				{"x", []int{}},
+				// a byte order mark: alone in its own read, split over reads, together with data
+				{"\ufeffprint 1\nprint 2", []int{1, 3, 9}},
+				{"\ufeff", []int{1, 2}},
+				// more syntax errors than any "too many errors" limit, with input left after them
+				{strings.Repeat("print )\n", 40) + "print 1\nprint (", []int{8, 168, 330}},
 			}
 			bound := 1
 			if c.Thorough() {
@@ -413,6 +508,10 @@ func init() {
 			}
 			for _, in := range inputs {
 				scripts := c11Scripts(len(in.src), in.cuts)
+				if len(in.src) > 200 {
+					// the long input: chunked scripts without the fault variants (the token stream alone gives hundreds of scheduling points)
+					scripts = [][]impl.Answer{impl.Chunks(), impl.Chunks(8), impl.Chunks(168, 162), {{N: 168}, {N: 0, Err: "boom"}}, {{N: len(in.src), Err: "EOF"}}}
+				}
 				if strings.HasPrefix(in.src, "print @\n") {
 					// the early failure followed by 6 further chunks that must not all be read
 					var s []impl.Answer
@@ -427,9 +526,12 @@ func init() {
 					if len(sc) <= 2 {
 						apis = append(apis, "unmarshal-val", "unmarshal-nil", "unmarshal-slice")
 					}
+					if len(in.src) > 200 {
+						apis = []string{"parse", "interpret"}
+					}
 					for _, api := range apis {
 						for _, tb := range []int{0, 1, 2} {
-							if api != "parse" && tb != 0 {
+							if (api != "parse" || len(in.src) > 200) && tb != 0 {
 								continue
 							}
 							b := bound
